@@ -420,6 +420,19 @@ def _reshape_minus1_with_zero_dim(case):
     return False
 
 
+def _result_has_new_allowzero(case):
+    """The rewritten model has a Reshape carrying an allowzero attribute that the original did not have (the recorded defect is exactly
+    that attribute below opset 14; any other failure of the rule on such a model is not this finding)."""
+    from vf.props import C05
+
+    m = M(case)
+    had = sum(1 for n in nodes(m, "Reshape") if attr(n, "allowzero") is not None)
+    r = C05.apply_rule(m, "materialize_reshape_shape_rule", case.get("commute", False))
+    if r[0] != "ok":
+        return False
+    return sum(1 for n in nodes(r[2], "Reshape") if attr(n, "allowzero") is not None) > had
+
+
 def _shape_with_end(m):
     return any(attr(n, "end") is not None for n in nodes(m, "Shape"))
 
@@ -508,7 +521,7 @@ C05_REGIONS = {
     "conv_affine_scale_offset_rank_ge2": lambda c: _rule(c, "conv_affine_fusion_rule") and _conv_affine_scale_offset_rank(c),
     "affine_conv_autopad_and_pads": lambda c: _rule(c, "affine_conv_fusion_rule") and _autopad_and_pads_both(M(c)),
     "gemm_bias_removed_before_opset11": lambda c: _rule(c, "remove_optional_bias_from_gemm_rule") and (opset(M(c)) or 99) < 11,
-    "materialize_reshape_before_opset14": lambda c: _rule(c, "materialize_reshape_shape_rule") and (opset(M(c)) or 99) < 14,
+    "materialize_reshape_before_opset14": lambda c: _rule(c, "materialize_reshape_shape_rule") and (opset(M(c)) or 99) < 14 and _result_has_new_allowzero(c),
     "materialize_reshape_minus1_with_zero_dim": lambda c: _rule(c, "materialize_reshape_shape_rule") and _reshape_minus1_with_zero_dim(c),
     "dynamic_scatter_shape_with_end": lambda c: _rule(c, "no_op_dynamic_scatter_nd_rule") and _shape_with_end(M(c)),
     "expand_binop_rank_extending": lambda c: _rule(c, "expand_before_binary_op_rules") and _expand_rank_extending(c),
